@@ -518,6 +518,11 @@ def gen_bases(rng, th):
         out.append(('reduced', [[(i + 2) * int(i == j) for j in range(n)] for i in range(n)]))
         out.append(('descending-diagonal', [[(n - i) * 7 * int(i == j) for j in range(n)] for i in range(n)]))
     out.append(('unit-test', [[1, 1, 1], [-1, 0, 2], [3, 5, 6]]))
+    # huge but exactly representable entries (|mu| >= 2^63: the size-reduction quotient does not fit a machine word; every
+    # intermediate product stays exact because the other entries are tiny powers of two)
+    for M in ([[1, 0], [2 ** 64, 1]], [[1, 0], [10 ** 19, 1]], [[2, 0], [-2 ** 70, 1]], [[1, 0], [-2 ** 63, 1]], [[1, 0], [2 ** 63 + 2 ** 11, 1]],
+              [[4, 0, 0], [0, 2, 0], [2 ** 70, 3 * 2 ** 66, 1]], [[1, 0, 0], [2 ** 65, 1, 0], [0, 2 ** 66, 1]]):
+        out.append(('huge-exact', M))
     # dimensions 4 and 5 with small entries (many exact ties) and with large entries
     for n in (4, 5):
         for bound in (5, 10 ** 4):
